@@ -316,6 +316,12 @@ func pathOfD(v ssa.Value, d int) AP {
 		}
 		return AP{Root: x}
 	case *ssa.Alloc:
+		// a by-value struct parameter spilled to a cell: `t = local T; *t = param`
+		if sv := singleStore(x); sv != nil {
+			if pr, ok := sv.(*ssa.Parameter); ok {
+				return AP{Root: pr}
+			}
+		}
 		return AP{Root: x}
 	}
 	return AP{Root: v}
@@ -999,4 +1005,73 @@ func sortedKeys(m map[string]bool) []string {
 	}
 	sort.Strings(s)
 	return s
+}
+
+// impliedConds lists the comparisons that necessarily hold when the edge (ifi, branch) is taken. A plain condition
+// implies itself; a short-circuit boolean materialised as a phi (`ok := a && b; if ok`) implies, for each input that
+// can produce the branch's truth value, the guards of its predecessor plus the input itself — intersected over inputs.
+func impliedConds(ifi *ssa.If, branch bool) []Cond {
+	return impliedOfValue(ifi.Cond, branch, 0)
+}
+
+type condKey struct {
+	op   token.Token
+	x, y ssa.Value
+	val  ssa.Value
+	t    bool
+}
+
+func keyOfCond(c Cond) condKey { return condKey{c.Op, c.X, c.Y, c.Val, c.True} }
+
+func impliedOfValue(v ssa.Value, truth bool, depth int) []Cond {
+	c := normCond(v, truth)
+	if c.Op != token.ILLEGAL || depth > 6 {
+		return []Cond{c}
+	}
+	ph, ok := c.Val.(*ssa.Phi)
+	if !ok {
+		return []Cond{c}
+	}
+	var sets []map[condKey]Cond
+	for i, e := range ph.Edges {
+		if cst, ok := e.(*ssa.Const); ok && cst.Value != nil {
+			if (cst.Value.String() == "true") != c.True {
+				continue
+			}
+			set := map[condKey]Cond{}
+			for _, me := range mustEdges(ph.Block().Preds[i]) {
+				for _, ic := range impliedOfValue(ifOf(me.from).Cond, me.succ == 0, depth+1) {
+					set[keyOfCond(ic)] = ic
+				}
+			}
+			sets = append(sets, set)
+			continue
+		}
+		set := map[condKey]Cond{}
+		for _, me := range mustEdges(ph.Block().Preds[i]) {
+			for _, ic := range impliedOfValue(ifOf(me.from).Cond, me.succ == 0, depth+1) {
+				set[keyOfCond(ic)] = ic
+			}
+		}
+		for _, ic := range impliedOfValue(e, c.True, depth+1) {
+			set[keyOfCond(ic)] = ic
+		}
+		sets = append(sets, set)
+	}
+	out := []Cond{c}
+	if len(sets) == 0 {
+		return out
+	}
+	for k, ic := range sets[0] {
+		all := true
+		for _, s2 := range sets[1:] {
+			if _, ok := s2[k]; !ok {
+				all = false
+			}
+		}
+		if all {
+			out = append(out, ic)
+		}
+	}
+	return out
 }
